@@ -193,6 +193,7 @@ def run(ctx):
     ctx.assumes.append("ncontrols >= 1 and len(ctrl_state) == ncontrols (the constructor enforces the latter); tensor data are "
                        "ring elements (exact arithmetic); the prepare vector x is real")
     ctx.lib(["GateNet/GateNetCheck", "GateNet/GateNetProofs"])
+    ctx.log("library built")
     ok_tr = ctx.translate("GenGateNet", gen_gatenet.generate)
     if ok_tr:
         ok, _ = ctx.props()
@@ -200,6 +201,7 @@ def run(ctx):
             ctx.coqchk()
     else:
         ctx.oblige("props:C06", "theorem", False, "not compiled: translator failed")
+    ctx.log("theorems checked")
     sweep(ctx)
 
 
@@ -240,7 +242,7 @@ def sweep(ctx):
                     full = full_tensor(net)
                     if exact(full) and exact(tg.as_matrix()):
                         nbonds = net.num_bonds
-                        with_sum = nbonds + 2 * (nc + nt) <= (19 if ctx.thorough else 17)
+                        with_sum = nbonds + 2 * (nc + nt) <= (18 if ctx.thorough else 15)
                         add("VCtrl %s %s %s %s %s %s" % (ct.nat(nc), ct.nat(nt), zlist(cs), ct.zimat(tg.as_matrix()),
                                                           ct.b(with_sum), sparse(full)), dict(desc, op="value"))
                         ctx.count("ctrl_value" + ("+defining_sum" if with_sum else ""))
@@ -365,6 +367,22 @@ def sweep(ctx):
         if net is not None:
             add("VWrap %s %s %s" % (ct.lst([ct.nat(2)] * (2 * n)), ct.lst([ct.zi(v) for v in m.reshape(-1)]),
                                     sparse(full_tensor(net))), dict(desc, op="value"), False)
+    # time evolution gate (reshape to the local dimensions) alone and controlled: float data, oracle only
+    for nsites in (2, 3):
+        latt = qib.lattice.IntegerLattice((nsites,), pbc=False)
+        fld = qib.field.Field(qib.field.ParticleType.FERMION, latt)
+        co = np.array([[rng.uniform(-1, 1) + 1j * rng.uniform(-1, 1) for _ in range(nsites)] for _ in range(nsites)])
+        co = 0.5 * (co + co.conj().T)
+        term = qib.operator.FieldOperatorTerm([qib.operator.IFODesc(fld, qib.operator.IFOType.FERMI_CREATE),
+                                               qib.operator.IFODesc(fld, qib.operator.IFOType.FERMI_ANNIHIL)], co)
+        tev = qib.TimeEvolutionGate(qib.FieldOperator([term]), 0.7)
+        desc = {"kind": "tevo", "nsites": nsites, "coeffs": mat_desc(co), "t": 0.7}
+        ctx.count("time_evolution")
+        oracle_gate(ctx, "tevo", desc, tev, nsites)
+        for cs in ([1], [0, 1]):
+            oracle_gate(ctx, "ctrl-tevo", dict(desc, ctrl_state=cs), qib.ControlledGate(tev, len(cs), cs), len(cs) + nsites)
+            ctx.count("controlled_time_evolution")
+
     # wrap of tensors of arbitrary shape (the classmethod itself)
     from qib.tensor_network import TensorNetwork
     for shp in [(3,), (2, 3), (3, 1, 2), (2, 2, 3, 2), ()]:
@@ -383,7 +401,9 @@ def sweep(ctx):
             add("VWrap %s %s %s" % (ct.lst([ct.nat(d) for d in shp]), ct.lst([ct.zi(v) for v in a.reshape(-1)]),
                                     sparse(full)), dict(desc, op="value"), False)
 
-    dis = ctx.cases("gatenet", HEADER, cases)
+    ctx.log("implementation swept: %d cases" % len(cases))
+    dis = ctx.cases("gatenet", HEADER, cases, shard=16)
+    ctx.log("model evaluated")
     for i, d in dis[:5]:
         ctx.log("model/impl disagree on", d)
         # turn a disagreement into a concrete failing input where the oracle can see it
@@ -435,6 +455,18 @@ def replay(ctx, data):
         for name, mk in two:
             if name == inp["gate"]:
                 oracle_gate(ctx, "wrap2q:" + name, inp, mk(), 2)
+    elif kind == "tevo":
+        n = inp["nsites"]
+        latt = qib.lattice.IntegerLattice((n,), pbc=False)
+        fld = qib.field.Field(qib.field.ParticleType.FERMION, latt)
+        term = qib.operator.FieldOperatorTerm([qib.operator.IFODesc(fld, qib.operator.IFOType.FERMI_CREATE),
+                                               qib.operator.IFODesc(fld, qib.operator.IFOType.FERMI_ANNIHIL)], mat_of(inp["coeffs"]))
+        tev = qib.TimeEvolutionGate(qib.FieldOperator([term]), inp["t"])
+        if "ctrl_state" in inp:
+            cs = inp["ctrl_state"]
+            oracle_gate(ctx, "ctrl-tevo", inp, qib.ControlledGate(tev, len(cs), cs), len(cs) + n)
+        else:
+            oracle_gate(ctx, "tevo", inp, tev, n)
     elif kind == "general":
         oracle_gate(ctx, "general", inp, qib.GeneralGate(mat_of(inp["mat"]), inp["nwires"]), inp["nwires"])
     elif kind == "wrap":
